@@ -150,12 +150,36 @@ side one expression that takes the slot's core value back to the payload value (
 by scalar lifting).  Probes use payload types whose scalar lowering/lifting is the identity on
 bits (`s32`, `u32`, `f32`, `f64`), so the claims below are claims about the `Bitcast`. -/
 
+/-- wit-parser refines the joined slot's core type: a plain number, a `Pointer` (core i32 under
+wasm32) or a `PointerOrI64` (core i64). -/
+inductive SlotKind | num | ptr | p64
+  deriving DecidableEq, Repr, Inhabited
+
+/-- target-language type a backend uses for a joined slot -/
+def slotTy (L : Lang) (k : SlotKind) (c : Core) : Ty :=
+  match k with
+  | .num => coreTy L c
+  | .ptr =>
+    match L with
+    | .rust | .c | .cpp | .d => .ptr      -- `*mut u8`, `uint8_t *`, `void*`
+    | .csharp => .isize                    -- `nint`
+    | .go => .usize                        -- `uintptr`
+    | .moonbit => .i32                     -- `Int`
+  | .p64 =>
+    match L with
+    | .rust => .mu64                       -- `MaybeUninit<u64>`
+    | .d => .u64                           -- `ulong`
+    | _ => .i64
+
+def slotVal (L : Lang) (k : SlotKind) (c : Core) (b : BitVec c.width) : Val := ⟨slotTy L k c, b.setWidth 64⟩
+
 structure CastEntry where
   lang : Lang
-  /-- abi.rs name of the `Bitcast`: `F32ToI64`, … -/
+  /-- abi.rs name of the `Bitcast`: `F32ToI64`, … (`A_B` = `Sequence [A, B]`) -/
   kind : String
   payload : WTy
   slot : Core
+  slotKind : SlotKind
   /-- `true`: payload value → slot value (lowering); `false`: slot value → payload value (lifting) -/
   lowering : Bool
   side : String
@@ -166,16 +190,16 @@ structure CastEntry where
   deriving Repr, Inhabited
 
 def CastEntry.typesAgree (e : CastEntry) : Bool :=
-  if e.lowering then agrees e.opTy (reprTy e.lang e.payload) && agrees e.dstTy (coreTy e.lang e.slot)
-  else agrees e.opTy (coreTy e.lang e.slot) && agrees e.dstTy (reprTy e.lang e.payload)
+  if e.lowering then agrees e.opTy (reprTy e.lang e.payload) && agrees e.dstTy (slotTy e.lang e.slotKind e.slot)
+  else agrees e.opTy (slotTy e.lang e.slotKind e.slot) && agrees e.dstTy (reprTy e.lang e.payload)
 
 /-- run a lowering entry on a payload value -/
 def CastEntry.runLower (e : CastEntry) (v : BitVec e.payload.width) (junk : BitVec 64) : Res :=
-  eval e.lang { x := reprVal e.lang e.payload v, junk := junk } (.impl (coreTy e.lang e.slot) e.expr)
+  eval e.lang { x := reprVal e.lang e.payload v, junk := junk } (.impl (slotTy e.lang e.slotKind e.slot) e.expr)
 
 /-- run a lifting entry on a slot value -/
 def CastEntry.runLift (e : CastEntry) (c : BitVec e.slot.width) (junk : BitVec 64) : Res :=
-  eval e.lang { x := coreVal e.lang e.slot c, junk := junk } (.impl (reprTy e.lang e.payload) e.expr)
+  eval e.lang { x := slotVal e.lang e.slotKind e.slot c, junk := junk } (.impl (reprTy e.lang e.payload) e.expr)
 
 /-- what the canonical ABI puts into the slot for payload value `v` -/
 def specLower (payload : WTy) (slot : Core) (v : BitVec payload.width) : Option (BitVec slot.width) :=
@@ -193,7 +217,7 @@ def CastEntry.IsSpecIf (e : CastEntry) (pre : BitVec 64 → Bool) : Prop :=
   e.typesAgree = true ∧
   if e.lowering then
     ∀ (v : BitVec e.payload.width) (junk : BitVec 64), pre (v.setWidth 64) = true →
-      (specLower e.payload e.slot v).map (fun r => Res.ok (coreVal e.lang e.slot r)) = some (e.runLower v junk)
+      (specLower e.payload e.slot v).map (fun r => Res.ok (slotVal e.lang e.slotKind e.slot r)) = some (e.runLower v junk)
   else
     ∀ (c : BitVec e.slot.width) (junk : BitVec 64), pre (c.setWidth 64) = true →
       (specLift e.payload e.slot c).map (fun r => Res.ok (reprVal e.lang e.payload r)) = some (e.runLift c junk)
@@ -217,7 +241,7 @@ def CastEntry.evalAt (e : CastEntry) (i junk : BitVec 64) : Bool × Res × Optio
   if e.lowering then
     let v : BitVec e.payload.width := i.setWidth _
     let a := e.runLower v junk
-    let b := (specLower e.payload e.slot v).map (fun r => Res.ok (coreVal e.lang e.slot r))
+    let b := (specLower e.payload e.slot v).map (fun r => Res.ok (slotVal e.lang e.slotKind e.slot r))
     (b == some a, a, b)
   else
     let c : BitVec e.slot.width := i.setWidth _
